@@ -146,6 +146,18 @@ def _p1_peer(vc):
 
 # which of priority / lifetime / lastseen a record has; every record also carries an unknown field (that Peer
 # ignores unknown fields, and that their absence is fine, is scenario `peer`)
+def _p1_as_dict(vc):
+    prio, life, iso = vc.int('priority'), vc.int('lifetime'), vc.str('lastseen.isoformat()')
+    peer = Opaque('peer', identity=vc.str('identity'), priority=prio, lifetime=STd(life),
+                  lastseen=Opaque('lastseen', isoformat=lambda: iso), deadline=Opaque('deadline'), is_dead=vc.bool('is_dead'))
+    ld = vc.load('kopf._core.engines.peering', 'Peer.as_dict')
+    d = ld.fn(peer)
+    vc.ensure('peer.as_dict', isinstance(d, dict) and sorted(d) == ['lastseen', 'lifetime', 'priority'])
+    vc.ensure('peer.as_dict', And(Eq(d['priority'], prio), Eq(d['lifetime'], life), Eq(d['lastseen'], iso)))
+    vc.canary('canary.as_dict_has_identity', 'identity' in d)
+    return ('as_dict', d['priority'], d['lifetime'], d['lastseen'])
+
+
 _SHAPES = [(a, b, c) for a in (False, True) for b in (False, True) for c in (False, True)]
 
 
@@ -153,11 +165,11 @@ def _p1_event(vc):
     clock = Clock()
     now0 = clock.now
     own = vc.int('own.priority')
-    me = vc.str('own.identity')
+    me = vc.int('own.identity')
     pname = vc.str('settings.peering.name')
     oname = vc.str('object.name')
     autoclean = vc.bool('autoclean')
-    recs = ext.Records('peers', dict(id='str', prio='int', life='real', seen='real',
+    recs = ext.Records('peers', dict(id='int', prio='int', life='real', seen='real',
                                      has_prio='bool', has_life='bool', has_seen='bool'))
 
     # -- the status mapping {identity: {priority?, lifetime?, lastseen?, unknown fields?}} of arbitrary size
@@ -312,12 +324,13 @@ def _p1_event(vc):
     return ('event', len(cleans), turns, kind, len(touches))
 
 
-@harness('P1', targets=['kopf._core.engines.peering.Peer.__init__', 'kopf._core.engines.peering.process_peering_event'],
+@harness('P1', targets=['kopf._core.engines.peering.Peer.__init__', 'kopf._core.engines.peering.Peer.as_dict',
+                        'kopf._core.engines.peering.process_peering_event'],
          props=['C13'],
-         clauses=['peer.fields', 'peer.default_lifetime', 'peer.deadline', 'peer.is_dead', 'peer.unknown_fields_ignored',
+         clauses=['peer.fields', 'peer.default_lifetime', 'peer.deadline', 'peer.is_dead', 'peer.unknown_fields_ignored', 'peer.as_dict',
                   'event.foreign_ignored', 'event.toggle', 'event.clean_exactly_dead', 'event.wakeup',
                   'event.touch_iff_uninterrupted', 'event.failures_propagate'],
-         canaries=['canary.peer_raises', 'canary.never_dead', 'canary.event_never_cleans', 'canary.event_never_touches',
+         canaries=['canary.peer_raises', 'canary.never_dead', 'canary.as_dict_has_identity', 'canary.event_never_cleans', 'canary.event_never_touches',
                    'canary.event_never_pauses'],
          trusted=['iso8601.parse_date: total function from the timestamps kopf writes (isoformat) to instants',
                   'datetime.now(): the ghost clock; it advances only at suspension points',
@@ -327,11 +340,13 @@ def P1(vc):
     """
     Scenario `peer` -- Peer.__init__: identity/priority kept (priority default 0), a missing lifetime is 60 s,
     a missing/null lastseen is "now", deadline = lastseen + lifetime, is_dead <=> deadline <= now, unknown
-    fields are accepted and ignored.
+    fields are accepted and ignored.  Scenario `as_dict` -- exactly {priority, lifetime (seconds), lastseen (isoformat)}.
     Scenario `event` -- process_peering_event over a status mapping of ARBITRARY size (abstract collection with
-    quantified obligations, see pyvc/ext_c13.py; records may lack priority/lifetime/lastseen and carry unknown
-    fields): an event for an object whose name is not settings.peering.name has no effect; otherwise, with
-    live(p) = not dead(p) and p.identity != own identity and blocked = exists live p: p.priority >= own priority:
+    quantified obligations, see pyvc/ext_c13.py; each record may lack priority / lifetime / lastseen and carries
+    an unknown field; identities are opaque tokens compared only by ==, modelled as integers; lifetimes range over
+    the reals, a superset of the integers): an event for an object whose name is not settings.peering.name has no
+    effect; otherwise, with live(p) = not dead(p) and p.identity != own identity and
+    blocked = exists live p: p.priority >= own priority:
     turn_to(True) happens iff blocked and the toggle was off, turn_to(False) iff not blocked and it was on (at
     most one call, final state == blocked; no toggle => no call); clean() is called (once) iff autoclean and some
     record is dead, with exactly the dead records; exactly one interruptible sleep (wakeup = stream_pressure)
@@ -339,6 +354,244 @@ def P1(vc):
     own identity) iff blocked and the sleep was not interrupted, after the sleep; failures of clean/touch propagate.
     Peer is used by contract in scenario `event`.
     """
-    if vc.nondet(2, 'scenario: peer / event') == 0:
+    k = vc.nondet(3, 'scenario: peer / as_dict / event')
+    if k == 0:
         return _p1_peer(vc)
+    if k == 1:
+        return _p1_as_dict(vc)
     return _p1_event(vc)
+
+
+# ------------------------------------------------------------------------------------ P2
+def _in_loop(vc, k):
+    """True once the cut loop k has been entered on this path (i.e. an invariant callback runs at a back edge)."""
+    return any(ev and ev[0] == 'loop-head' and ev[1] == k for ev in vc.trace)
+
+
+def _since_head(vc, k):
+    tr = vc.trace
+    i = max(j for j, ev in enumerate(tr) if ev and ev[0] == 'loop-head' and ev[1] == k)
+    return tr[i + 1:]
+
+
+def havoc_rest(vc, loc, keep):
+    """Loop-contract helper: every local bound at the loop head that is not known to be loop-invariant (`keep`: the
+    parameters) gets an unknown value, so state carried from one iteration to the next is not taken from the first."""
+    return {name: Opaque(f'havocked:{name}', truth=vc.bool(f'havocked:{name}.truth'))
+            for name in sorted(loc) if name not in keep and not name.startswith('__')}
+
+
+def _make_patch_obj(vc, failed):
+    """patching.patch_obj by contract (C08/C12): one API request; returns (body | None for 404, remaining patch) or raises."""
+    async def patch_obj(**kw):
+        snap = {k: (dict(v) if isinstance(v, dict) else v) for k, v in dict(kw['patch']).items()}
+        vc.emit('patch_obj', kw, snap)
+        await suspend('patch_obj')
+        k = vc.nondet(3, 'patch_obj: patched / 404 / raises')
+        if k == 2:
+            failed.append(_ApiFailure('patch_obj')); raise failed[-1]
+        return (Opaque('patched-body') if k == 0 else None), None
+    return patch_obj
+
+
+def _p2_touch(vc):
+    clock = Clock()
+    own = vc.int('own.priority')
+    L = vc.int('settings.peering.lifetime')
+    arg = vc.opt('lifetime', vc.int)            # None: renew with the configured lifetime
+    name = vc.str('settings.peering.name')
+    ps = Opaque('settings.peering', priority=own, lifetime=L, stealth=vc.bool('stealth'))
+    ps.name = name
+    settings = Opaque('settings', peering=ps)
+    identity, resource = Opaque('identity'), Opaque('resource')
+    namespace = [None, 'ns1'][vc.nondet(2, 'namespace: cluster-wide / named')]
+    failed = []
+    vc.used('peering.Peer', 'P1 (scenario peer)'); vc.used('patching.patch_obj', 'trusted')
+    ld = vc.load('kopf._core.engines.peering', 'touch', stubs={
+        'Peer': make_peer_contract(clock), 'patching.patch_obj': _make_patch_obj(vc, failed), 'logger': NullLogger()})
+    kw = dict(identity=identity, settings=settings, resource=resource, namespace=namespace)
+    if arg is not None:
+        kw['lifetime'] = arg
+    t0 = clock.now
+    raised = None
+    try:
+        vc.drive(ld.fn(**kw), on_suspend=lambda site: clock.advance())
+    except _ApiFailure as e:
+        raised = e
+    calls = [ev for ev in vc.trace if ev[0] == 'patch_obj']
+    vc.ensure('touch.one_request', len(calls) == 1)
+    ckw, patch = calls[0][1], calls[0][2]
+    vc.ensure('touch.one_request', Eq(ckw['name'], name) and ckw['settings'] is settings and ckw['resource'] is resource
+              and ckw['namespace'] is namespace)
+    vc.ensure('touch.one_request', list(patch) == ['status'] and list(patch['status']) == [identity])
+    payload = patch['status'][identity]
+    eff = L if arg is None else arg
+    vc.ensure('touch.zero_lifetime_removes', Implies(Eq(eff, 0), payload is None))
+    vc.ensure('touch.renewal_payload', Implies(eff > 0, payload is not None))
+    if payload is not None:
+        vc.ensure('touch.renewal_payload', sorted(payload) == ['lastseen', 'lifetime', 'priority'])
+        vc.ensure('touch.renewal_payload', And(Eq(payload['priority'], own), Eq(payload['lifetime'], eff),
+                                               Eq(payload['lastseen'].t, t0)))
+        vc.ensure('touch.renewal_payload', eff > 0)       # never advertises a record that is already expired
+    vc.ensure('touch.failures_propagate', (raised is failed[-1]) if failed else raised is None)
+    vc.canary('canary.touch_always_renews', payload is not None)
+    return ('touch', payload is None, type(raised).__name__)
+
+
+def _p2_clean(vc):
+    k = vc.nondet(4, 'number of dead peers')
+    peers = [Opaque(f'peer{i}', identity=Opaque(f'id{i}')) for i in range(k)]
+    name = vc.str('settings.peering.name')
+    ps = Opaque('settings.peering')
+    ps.name = name
+    settings = Opaque('settings', peering=ps)
+    resource, namespace = Opaque('resource'), Opaque('namespace')
+    failed = []
+    vc.used('patching.patch_obj', 'trusted')
+    ld = vc.load('kopf._core.engines.peering', 'clean', stubs={
+        'patching.patch_obj': _make_patch_obj(vc, failed), 'logger': NullLogger()})
+    raised = None
+    try:
+        vc.drive(ld.fn(peers=iter(peers) if vc.nondet(2, 'list / one-shot iterable') else peers,
+                       settings=settings, resource=resource, namespace=namespace))
+    except _ApiFailure as e:
+        raised = e
+    calls = [ev for ev in vc.trace if ev[0] == 'patch_obj']
+    vc.ensure('clean.removes_exactly_given', len(calls) == 1)
+    ckw, patch = calls[0][1], calls[0][2]
+    vc.ensure('clean.removes_exactly_given', Eq(ckw['name'], name) and ckw['settings'] is settings
+              and ckw['resource'] is resource and ckw['namespace'] is namespace)
+    vc.ensure('clean.removes_exactly_given', list(patch) == ['status']
+              and patch['status'] == {p.identity: None for p in peers})
+    vc.ensure('clean.failures_propagate', (raised is failed[-1]) if failed else raised is None)
+    vc.canary('canary.clean_never_fails', raised is None)
+    return ('clean', k, type(raised).__name__)
+
+
+class _OtherBase(BaseException):
+    """a BaseException that is neither an Exception nor a cancellation (e.g. KeyboardInterrupt/SystemExit)"""
+
+
+def _p2_keepalive(vc):
+    L = vc.int('settings.peering.lifetime')
+    settings = Opaque('settings', peering=Opaque('settings.peering', lifetime=L))
+    identity, resource, namespace = Opaque('identity'), Opaque('resource'), Opaque('namespace')
+    thrown = []          # what ended the loop (thrown by a callee or into a suspension point)
+    final = {'started': False}
+
+    def outcome(site, kinds):
+        k = kinds[vc.nondet(len(kinds), f'{site}: outcome')]
+        if k == 'ok':
+            return
+        exc = {'fail': _ApiFailure(site), 'cancel': asyncio.CancelledError(), 'base': _OtherBase(site)}[k]
+        if not final['started']:
+            thrown.append(exc)
+        else:
+            final['exc'] = exc
+        raise exc
+
+    async def touch(**kw):
+        removing = kw.get('lifetime') is not None
+        if removing:
+            final['started'] = True
+        vc.emit('touch', kw)
+        await suspend('touch')
+        outcome('touch', ['ok', 'fail', 'cancel', 'base'] if not removing else ['ok', 'fail', 'cancel'])
+
+    async def sleep(delay):
+        vc.emit('sleep', delay)
+        await suspend('sleep')
+        outcome('sleep', ['ok', 'cancel'])
+
+    async def shield(aw):
+        vc.emit('shield.enter')
+        try:
+            return await aw
+        finally:
+            vc.emit('shield.exit')
+
+    def randint(a, b):
+        r = vc.int('random.randint')
+        vc.assume(And(a <= r, r <= b), 'random.randint(a, b) returns an integer in [a, b]')
+        return r
+
+    def renewing(kw):
+        return (kw.get('lifetime') is None and kw['identity'] is identity and kw['settings'] is settings
+                and kw['resource'] is resource and kw['namespace'] is namespace)
+
+    def inv(loc):
+        if not _in_loop(vc, 1):
+            return True
+        # back edge: this iteration was exactly  touch (renewing) ; sleep(d)
+        evs = _since_head(vc, 1)
+        vc.ensure('keepalive.renews_then_sleeps', [e[0] for e in evs] == ['touch', 'sleep'] and renewing(evs[0][1]))
+        d = evs[1][1]
+        vc.ensure('keepalive.interval_at_least_1s', d >= 1)
+        vc.ensure('keepalive.interval_lt_lifetime', Implies(L >= 1, d < L),
+                  excuse={'F-C13-1': Eq(L, 1)})
+        vc.canary('canary.keepalive_interval_is_lifetime_minus_5', Eq(d, L - 5))
+        return True
+    vc.used('peering.touch', 'P2 (scenario touch)'); vc.used('asyncio.sleep/shield, random.randint', 'trusted')
+    ld = vc.load('kopf._core.engines.peering', 'keepalive', stubs={
+        'touch': touch, 'asyncio.sleep': sleep, 'asyncio.shield': shield, 'random.randint': randint,
+        'logger': NullLogger()},
+        loops={1: LoopSpec('while True', invariant=inv,
+                           havoc=lambda loc: havoc_rest(vc, loc, ('namespace', 'resource', 'identity', 'settings')))})
+    raised = None
+    try:
+        vc.drive(ld.fn(namespace=namespace, resource=resource, identity=identity, settings=settings))
+        returned = True
+    except (_ApiFailure, asyncio.CancelledError, _OtherBase) as e:
+        raised, returned = e, False
+    tr = vc.trace
+    names = [ev[0] for ev in tr]
+    vc.ensure('keepalive.exit_reason_propagates', not returned and len(thrown) == 1 and raised is thrown[0])
+    # the removing touch: attempted on every exit, inside shield(), for the own record
+    removing = [i for i, ev in enumerate(tr) if ev[0] == 'touch' and ev[1].get('lifetime') is not None]
+    vc.ensure('keepalive.removes_on_exit', len(removing) == 1)
+    if removing:
+        i = removing[0]
+        kw = tr[i][1]
+        vc.ensure('keepalive.removes_on_exit', Eq(kw['lifetime'], 0) and kw['identity'] is identity and kw['settings'] is settings
+                  and kw['resource'] is resource and kw['namespace'] is namespace)
+        vc.ensure('keepalive.removal_shielded', 'shield.enter' in names[:i] and 'shield.exit' in names[i:]
+                  and names[:i].count('shield.enter') == 1 + names[:i].count('shield.exit'))
+        vc.ensure('keepalive.removes_on_exit', all(n not in ('touch', 'sleep') for n in names[i + 1:]))
+    vc.canary('canary.keepalive_removal_always_succeeds', 'exc' not in final)
+    return ('keepalive', type(raised).__name__, names[-4:])
+
+
+@harness('P2', targets=['kopf._core.engines.peering.touch', 'kopf._core.engines.peering.keepalive',
+                        'kopf._core.engines.peering.clean'],
+         props=['C13', 'C20'],
+         clauses=['touch.one_request', 'touch.zero_lifetime_removes', 'touch.renewal_payload', 'touch.failures_propagate',
+                  'clean.removes_exactly_given', 'clean.failures_propagate',
+                  'keepalive.renews_then_sleeps', 'keepalive.interval_at_least_1s', 'keepalive.interval_lt_lifetime',
+                  'keepalive.removes_on_exit', 'keepalive.removal_shielded', 'keepalive.exit_reason_propagates'],
+         canaries=['canary.touch_always_renews', 'canary.clean_never_fails', 'canary.keepalive_interval_is_lifetime_minus_5',
+                   'canary.keepalive_removal_always_succeeds'],
+         trusted=['patching.patch_obj: one API request; returns (body or None for 404, remaining patch) or raises',
+                  'asyncio.sleep(d): suspends for >= d seconds, can be cancelled; asyncio.shield(aw): awaits aw, the awaiting '
+                  'side can be cancelled; random.randint(a, b) in [a, b]',
+                  'patches.Patch runs natively (a dict)'])
+def P2(vc):
+    """
+    Scenario `touch` -- one patch request for the peering object settings.peering.name with the patch
+    {status: {identity: X}}: X is None (the record is removed) when the effective lifetime (argument, else the
+    configured one) is 0, and for a positive lifetime X = {priority: own, lifetime: effective, lastseen: now};
+    a record that is already expired is never advertised; API failures propagate.  Peer is used by contract (P1).
+    Scenario `clean` -- one patch request {status: {p.identity: None for the given peers}}, nothing else
+    (BOUNDED in the number of peers: 0..3 -- a dict comprehension over an arbitrary iterable takes no loop contract).
+    Scenario `keepalive` (loop contract on `while True`) -- every iteration is a renewing touch followed by one
+    sleep of d seconds, d >= 1, and d < lifetime for every lifetime >= 2.  For lifetime == 1 the code sleeps exactly
+    1 s, i.e. the renewal is NOT before the expiry: finding F-C13-1 (excused class: lifetime == 1).  However the
+    loop ends (failure of touch, cancellation in touch or sleep, any BaseException) exactly one removing
+    touch(lifetime=0) for the own record is attempted inside asyncio.shield(), nothing follows it, its own
+    failure/cancellation is swallowed, and the exception that ended the loop is what propagates.
+    """
+    k = vc.nondet(3, 'scenario: touch / clean / keepalive')
+    if k == 0:
+        return _p2_touch(vc)
+    if k == 1:
+        return _p2_clean(vc)
+    return _p2_keepalive(vc)
